@@ -32,6 +32,11 @@ pub const PROGRAMS: &[&str] = &[
 /// (units, natural ending units)
 pub fn victim_units(prog: &str) -> (Vec<Unit>, Vec<Unit>) {
     let t = |j: usize, k: usize| tag(0, j, k);
+    if prog.starts_with("gen:") {
+        // generated extended-protocol programs (C08's generator): each batch is one unit ending in Sync
+        let units = super::c08::gen_batches(0, prog).into_iter().map(|(b, l)| u(b, &l, b'Z')).collect();
+        return (units, vec![]);
+    }
     match prog {
         "opentxn" => (
             vec![uq(&format!("BEGIN /*{}*/", t(0, 0))), uq(&format!("SELECT 1 /*{}*/", t(0, 1)))],
@@ -468,13 +473,30 @@ pub fn build(tier: &str) -> SimCheck {
             }
         }
     }
+    // generated extended-protocol victims (named statements created, replaced and closed in every order),
+    // leaving after the complete program by Terminate or hard drop
+    for g in super::c08::gen_programs(if thorough { 3 } else { 2 }) {
+        let (units, _) = victim_units(&g);
+        for cache in [0usize, 8] {
+            for ending in ["terminate", "harddrop"] {
+                if let Some(sc) = scenario("transaction", cache, &g, (units.len(), 0), ending, None) {
+                    scenarios.push(sc);
+                }
+                if thorough {
+                    if let Some(sc) = scenario("session", cache, &g, (units.len(), 0), ending, None) {
+                        scenarios.push(sc);
+                    }
+                }
+            }
+        }
+    }
     scenarios.extend(midreply_scenarios(thorough));
     SimCheck {
         scenarios,
         oracle: Box::new(oracle),
         bound: 1,
         limits: Limits { max_wall_s: if thorough { 1500.0 } else { 50.0 }, ..Default::default() },
-        rule: "scenario = statement cache on/off x victim program x cut point (every message boundary; every byte offset inside the messages of 4 programs in quick, of all programs in thorough) x ending (natural, Terminate, hard drop, FIN, 5 malformed/invalid messages, idle-in-transaction timeout, statement timeout), then an observer checks out with pool_size=1; plus mid-reply disconnects at every backend message boundary (gated delivery, 1 deviation); distinct = distinct end-to-end histories".into(),
+        rule: "scenario = statement cache on/off x victim program x cut point (every message boundary; every byte offset inside the messages of 4 programs in quick, of all programs in thorough) x ending (natural, Terminate, hard drop, FIN, 5 malformed/invalid messages, idle-in-transaction timeout, statement timeout), then an observer checks out with pool_size=1; plus every generated extended-protocol batch program of C08 as victim (leaving by Terminate / hard drop); plus mid-reply disconnects at every backend message boundary (gated delivery, 1 deviation); distinct = distinct end-to-end histories".into(),
         assumptions: vec![
             "the reference backend's own session state at the observer's first message defines 'clean'".into(),
             "state created inside a transaction block is out of the property's scope and not judged".into(),
